@@ -260,6 +260,17 @@ class Session:
                               timeframe_fill=bool(ft.get("fill")))
         return self._other
 
+    def _feed_other(self, other, data):
+        # what the neighbour makes of the candles is its own business (a stream that steps back in time is
+        # refused by a fine timeframe and accepted by a coarse one): its exceptions are not the observed
+        # object's, and a neighbour that refused once is left alone
+        if getattr(self, "_other_dead", False):
+            return
+        try:
+            other.append(data)
+        except Exception:
+            self._other_dead = True
+
     def indicator(self, i):
         if self.sc["obj"] == "ind":
             return self.obj
@@ -304,11 +315,11 @@ class Session:
             before = flat_args(data, self.base) if not form.startswith("candle") else []
             other = self._other_consumer() if form == "candle" else None
             if other is not None and sc["feed_to"]["order"] == "first":
-                other.append(data)
+                self._feed_other(other, data)
             try:
                 self.obj.append(data)
                 if other is not None and sc["feed_to"]["order"] == "after":
-                    other.append(data)
+                    self._feed_other(other, data)
             finally:
                 self.args = (before, flat_args(data, self.base) if not form.startswith("candle") else [])
         elif op == "poke":
